@@ -450,7 +450,15 @@ where
         let mut bytesmut = BytesMut::new();
         let max_frame_size = self.framed_write.encoder().max_frame_length();
         let mut encoder = amqp::FrameEncoder::new(max_frame_size);
+        let is_transfer = matches!(item.body, amqp::FrameBody::Transfer { .. });
         encoder.encode(item, &mut bytesmut)?;
+
+        // Only a transfer can continue in further frames (the encoder has already cut it at
+        // frame boundaries). Any other performative that does not fit into the peer's
+        // max-frame-size cannot be sent at all: cutting it would put pseudo frames on the wire
+        if !is_transfer && bytesmut.len() > max_frame_size {
+            return Err(Error::FramingError);
+        }
 
         while bytesmut.len() > max_frame_size {
             let partial = bytesmut.split_to(max_frame_size);
